@@ -179,7 +179,7 @@ def ensure_build():
     return b
 
 
-DRIVER = os.path.join(BUILD, "extract", "driver")
+DRIVER = os.environ.get("VERIF_DRIVER") or os.path.join(BUILD, "extract", "driver")   # VERIF_DRIVER: harness/modelmut.py runs a mutated model
 
 
 def drive(lines, timeout=3000):
